@@ -2,9 +2,9 @@ import MorfuseModel.Sched.MachineInvPres
 /-!
 # Structural invariant of the machine (`NInv`), for every function of the mutual block
 
-The program class: `ProgOK` = object ids are below 100 (ids from 100 on are threads) and the program
-does not wait on a thread object by name (`local.p0 waittill`), so that the only way a thread becomes
-a wait *source* is `waitthread` (channel 0).  `NInv` holds at every call boundary of the machine, with
+The program class: `ProgOK` = object ids are below 100 (ids from 100 on are threads) and a script that
+waits on a thread object by name (`local.p0 waittill n`) does not use the two names the engine itself notifies
+when a listener is destroyed (`delete`, `remove`), so that `~ScriptThread` never wakes anybody by execution.  `NInv` holds at every call boundary of the machine, with
 no exception inside the cascades:
 
 * thread ids are distinct, `≥ 100` and below `nextTid`; parents are threads or 0;
@@ -15,10 +15,26 @@ no exception inside the cascades:
 namespace Morfuse.Sched
 open State
 
+/-- a name a script may wait on: not one of the two event names the engine itself notifies on destruction -/
+def NameOK (n : Nat) : Prop := n ≠ nameDelete ∧ n ≠ nameRemove
+
+instance (n : Nat) : Decidable (NameOK n) := by unfold NameOK; infer_instance
+
+theorem nameOK_zero : NameOK 0 := by decide
+
+/-- `src` is a thread and `name` is one of the engine's own destruction events: nobody waits there -/
+def QSrc (src name : Nat) : Prop := 100 ≤ src ∧ (name = nameDelete ∨ name = nameRemove)
+
 def Instr.ok : Instr → Prop
   | .spawn o => o < 100
-  | .waittillParent _ => False
+  | .waittillParent names => ∀ n ∈ names, NameOK n
   | _ => True
+
+theorem foldl_mem_inv {α : Type} (P : State → Prop) (f : State → α → State) :
+    ∀ (l : List α) (s : State), (∀ a ∈ l, ∀ s, P s → P (f s a)) → P s → P (l.foldl f s)
+  | [], _, _, h => h
+  | a :: l, s, hf, h => foldl_mem_inv P f l (f s a) (fun b hb => hf b (List.mem_cons_of_mem _ hb))
+      (hf a List.mem_cons_self s h)
 
 def ProgOK (prog : List (List Instr)) : Prop := ∀ body ∈ prog, ∀ ins ∈ body, ins.ok
 
@@ -118,7 +134,7 @@ structure NInv (s : State) : Prop where
   wfW : Tbl.WF s.waitFor
   prog : ProgOK s.prog
   objs : ∀ o ∈ s.objs, o < 100
-  n1 : ∀ src n, 100 ≤ src → Tbl.getD s.notify (src, n) ≠ [] → n = 0
+  n1 : ∀ src n, 100 ≤ src → Tbl.getD s.notify (src, n) ≠ [] → NameOK n
   n2 : ∀ src, 100 ≤ src → Tbl.hasOwner s.endOn src = false
   nMem : ∀ k x, x ∈ Tbl.getD s.notify k → 100 ≤ x
   wOwn : ∀ o n, Tbl.getD s.waitFor (o, n) ≠ [] → 100 ≤ o
@@ -465,7 +481,7 @@ theorem uaRest_ninv {swf : State → Nat → Nat → Bool → State} {sn : State
 
 /-- `Register`: the source is an object, or the channel is 0 (`waitthread`); the waiter is a thread -/
 theorem regWait_ninv {stp : State → Nat → State} (hs : N1 stp) {s : State} (h : NInv s) (o n c : Nat)
-    (hc : 100 ≤ c) (ho : o < 100 ∨ n = 0) : NInv (regWait stp s o n c) := by
+    (hc : 100 ≤ c) (ho : o < 100 ∨ NameOK n) : NInv (regWait stp s o n c) := by
   unfold regWait
   simp only
   have h1 : NInv { s with notify := Tbl.push s.notify (o, n) c } := by
@@ -477,7 +493,7 @@ theorem regWait_ninv {stp : State → Nat → State} (hs : N1 stp) {s : State} (
         have : src = o ∧ n' = n := by simpa using hk
         rcases ho with ho | ho
         · omega
-        · rw [this.2, ho]
+        · rw [this.2]; exact ho
       · exact h.n1 src n' hsrc hne
     · intro k x hx
       simp only [Tbl.getD_push] at hx
@@ -714,7 +730,7 @@ theorem exec_ninv_succ {fuel : Nat} (ih : NAll fuel) (s : State) (t : Nat) (th :
       · rename_i c hc
         apply ih.sei _ _ h.tid100
         have h1 := spawnNew_ninv h t l ht
-        exact regWait_ninv ih.stp h1 _ _ _ (h.cur c hc) (Or.inr rfl)
+        exact regWait_ninv ih.stp h1 _ _ _ (h.cur c hc) (Or.inr nameOK_zero)
   | pause => rw [exec_pause]; exact vmSuspend_ninv (ih.stp _ _ h) _
   | waitParent ms =>
     rw [exec_waitParent]
@@ -728,7 +744,16 @@ theorem exec_ninv_succ {fuel : Nat} (ih : NAll fuel) (s : State) (t : Nat) (th :
         · exact absurd hp hp0
         · exact hp
       exact waitOnGuarded_ninv ih.stp h _ _ hp'
-  | waittillParent names => exact absurd hok (by simp [Instr.ok])
+  | waittillParent names =>
+    rw [exec_waittillParent]
+    split
+    · exact h
+    · split
+      · exact h
+      · rename_i c hc
+        have hc' : 100 ≤ c := h.cur c hc
+        exact foldl_mem_inv NInv _ names s
+          (fun n hn s hs => regWait_ninv ih.stp hs _ _ _ hc' (Or.inr (hok n hn))) h
   | notifyParent n =>
     rw [exec_notifyParent]
     split
